@@ -162,7 +162,10 @@ def run(ck):
     dist = {"specs": 0, "templates": 0, "templates_with_symbols": 0, "assignments": 0, "formulas_compared": 0, "compiled_compared": 0, "real_model_compared": 0,
             "unmodelled_columns": {}, "symbols_per_template": {}, "outside_class_templates": 0, "mapper_errors": 0}
     exprs, keys = [], []
-    for i in range(ck.n(8, 60)):
+    templates_done = 0
+    for i in range(ck.n(30, 200)):
+        if templates_done >= ck.n(90, 700):
+            break
         pool = rng.choice([(4, 4, 6, 8), (2, 4, 6, 12), (3, 4, 8, 9)])
         spec, space = R.gen_search_spec(rng, max_space=ck.n(20000, 60000), fancy=(i % 2 == 0), pool=pool, enumerate_space=False)
         caps, err = T.capture_run(af, spec, d, ["ENERGY", "LATENCY"])
@@ -170,7 +173,10 @@ def run(ck):
         if err is not None:
             dist["mapper_errors"] += 1
         real_budget = 2
+        if len(caps) > 15:
+            caps = rng.sample(caps, 15)       # at most 15 templates of one spec: the amount of work does not hinge on one spec
         for ent in caps:
+            templates_done += 1
             dist["templates"] += 1
             tpl = ent["tpl"]
             if tpl is None:
